@@ -129,6 +129,13 @@ func vUploadCases() []vUpCase {
 		{query: `mutation($f: Upload!) { up(f: $f) other(f: $f) }`, vars: `{"f": null}`, fmap: map[string][]string{"0": {"variables.f"}}, owners: map[string][]string{"0": {"svc0", "svc1"}}, known: "C19-one-file-for-two-services"},
 		{query: `mutation($f: Upload!, $x: Int) { other(f: $f) plain(x: $x) }`, vars: `{"f": null, "x": 3}`, fmap: map[string][]string{"0": {"variables.f"}}, owners: map[string][]string{"0": {"svc1"}}},
 		{query: `mutation($fs: [Upload!]!) { upMany(fs: $fs) }`, vars: `{"fs": [null, null]}`, fmap: map[string][]string{"0": {"variables.fs.0", "variables.fs.1"}}, owners: map[string][]string{"0": {"svc0"}}, known: "C19-one-file-at-two-paths"},
+		// eleven files: list index 10 sorts before index 2 as a string
+		{query: `mutation($fs: [Upload!]!) { upMany(fs: $fs) }`, vars: `{"fs": [null, null, null, null, null, null, null, null, null, null, null]}`,
+			fmap: map[string][]string{"0": {"variables.fs.0"}, "1": {"variables.fs.1"}, "2": {"variables.fs.2"}, "3": {"variables.fs.3"}, "4": {"variables.fs.4"}, "5": {"variables.fs.5"},
+				"6": {"variables.fs.6"}, "7": {"variables.fs.7"}, "8": {"variables.fs.8"}, "9": {"variables.fs.9"}, "10": {"variables.fs.10"}},
+			owners: map[string][]string{"0": {"svc0"}, "1": {"svc0"}, "2": {"svc0"}, "3": {"svc0"}, "4": {"svc0"}, "5": {"svc0"}, "6": {"svc0"}, "7": {"svc0"}, "8": {"svc0"}, "9": {"svc0"}, "10": {"svc0"}}},
+		// two variables whose extraction order (map order) and path order may differ
+		{query: `mutation($b: Upload!, $a: Upload!) { x: up(f: $b) y: up(f: $a) }`, vars: `{"b": null, "a": null}`, fmap: map[string][]string{"0": {"variables.b"}, "1": {"variables.a"}}, owners: map[string][]string{"0": {"svc0"}, "1": {"svc0"}}},
 	}
 }
 
